@@ -1,8 +1,14 @@
 pub mod common;
 pub mod c01;
+pub mod manip;
 
 use crate::engine::Monitor;
 
 pub fn all() -> Vec<Box<dyn Monitor>> {
-    vec![Box::new(c01::C01)]
+    vec![
+        Box::new(c01::C01),
+        Box::new(manip::Manip(manip::Which::C04)),
+        Box::new(manip::Manip(manip::Which::C05)),
+        Box::new(manip::Manip(manip::Which::C06)),
+    ]
 }
